@@ -1,4 +1,5 @@
 import Firebolt.Properties.C01
+import Firebolt.Properties.ExecFlow
 /-!
 # C02 — Failed events reach exactly the node's own error handler, once
 Denotational part (every tree, oracle, stream); the operational part (every interleaving) is in `Properties/Exec*.lean`.
@@ -50,5 +51,12 @@ theorem skeleton_invokeProcessorAsync : Generated.invokeProcessorAsync = Expecte
 theorem skeleton_initNodeContextHierarchy : Generated.initNodeContextHierarchy = Expected.initNodeContextHierarchy := by rfl
 theorem skeleton_startWorkers : Generated.startWorkers = Expected.startWorkers := by rfl
 theorem skeleton_runNode : Generated.runNode = Expected.runNode := by rfl
+
+
+open Firebolt.Exec in
+/-- for every interleaving: a non-discarding handler received exactly one report per failed event, carrying that event -/
+theorem handler_edge_any_schedule (c : Cfg) (caps : Nat → Nat) (disc : Nat → Bool) (as : List Act) (s : St)
+    (hr : run c (init c caps disc) as = some s) (ht : Terminal c s) (hh : c.hasHandler = true) (hd : (s.outs c.nChildren).discard = false) :
+    (s.enq c.nChildren).Perm (s.upSent.filter (errorB c)) := terminal_handler c s (reachable_all c caps disc as s hr) ht hh hd
 
 end Firebolt.C02
